@@ -397,7 +397,8 @@ def reference(job):
         cgen, sgen = sc.gens()
         st, co, so = p.run(cgen, sgen)
         if not (co.ok and so.ok):
-            return fi, role, None
+            # the honest flow of a listed flavour does not complete: judged like any other case (below, class "honest")
+            return fi, role, []
         return fi, role, toks
     except BaseException:
         import traceback
@@ -639,12 +640,17 @@ def run(tier):
     rep.trusted = ["TLC 1.8", "puppet mutator", "tracemalloc peak (both endpoints' allocations are counted)"]
     rep.assumptions = ["memory bound: 40 MiB (8 MiB + twice the protocol maximum of one handshake message, 2^24: the message and one transient copy) + 64 x bytes received, peak of BOTH endpoints; work bound: 200 000 + 400 x bytes generator steps"]
     F = FL.flavour
+    # resumptions against a server that has rotated its ticket keys (new key first, the old one still accepted)
+    RT12 = F(3, "ecdhe_rsa", ticket=True, resume="ticket")
+    RT12["rotated"] = True
+    RT13 = F(4, "tls13", resume="psk", tickets13=1)
+    RT13["rotated"] = True
     flavs = [F(3, "ecdhe_rsa"), F(4, "tls13"), F(3, "dhe_rsa", reqCert="cert"), F(1, "rsa"), F(3, "srp_sha"), F(4, "tls13", reqCert="cert"),
              F(4, "tls13_ecdsa", dc="ecdsa"), F(3, "dhe_dsa", reqCert="cert", ccred="c_dsa"),
-             F(4, "tls13", hrr=True), F(0, "rsa", reqCert="cert"), F(3, "ecdhe_ecdsa", ticket=True), F(0, "dhe_rsa"), F(4, "tls13", resume="psk", tickets13=1),
+             F(4, "tls13", hrr=True), F(0, "rsa", reqCert="cert"), RT12, RT13, F(3, "ecdhe_ecdsa", ticket=True), F(0, "dhe_rsa"), F(4, "tls13", resume="psk", tickets13=1),
              F(3, "rsa", resume="id"), F(2, "dh_anon"), F(3, "ecdhe_rsa", npn=True, reqCert="nocert")]
     if tier == "quick":
-        flavs = flavs[:10]
+        flavs = flavs[:12]
     with Pool(16) as pool:
         refs = pool.map(reference, [(i, f, r) for i, f in enumerate(flavs) for r in ("c", "s")])
     rnd = random.Random(repr((env.SEED, "c08")))
@@ -657,6 +663,9 @@ def run(tier):
             rep.machinery_errors.append("reference crashed: " + toks["crash"][-400:])
             continue
         f = flavs[fi]
+        jid += 1
+        jobs.append({"id": jid, "f": f, "role": role, "k": 0, "mut": None,
+                     "tag": {"flavour": FL.fname(f), "role": role, "msg": "-", "k": 0, "class": "honest", "arg": 0}, "measure": False})
         for k, (tok, raw) in enumerate(toks, 1):
             if len(raw) > 3000 and tier == "quick":
                 ms = mutants(raw[:400] + raw[400:], tier, rnd)[:120]
